@@ -44,7 +44,8 @@ def scenarios(rng, tier):
         s.frame(0, discover(M, tos=t2, gen=rng.choice([Gs, Gs, G, 0]), seq=rng.choice([5, 6])))
         # the same Discover relayed over another path (same transaction id and generation, other Ethernet source), and once more
         s.frame(0, discover(M, tos=t2, gen=Gs, seq=6, esrc=mac(60))); s.frame(0, discover(M, tos=t2, gen=Gs, seq=6, esrc=mac(61))); s.frame(0, discover(M, tos=t2, gen=Gs, seq=6, esrc=mac(61)))
-    return [(s.text(), {})]
+    oth = other_iface_variants(s.text(), rng, 10 if tier == 'quick' else 150)
+    return [(s.text(), {}), (oth, {'family': 'other-interface'})]
 def project(blk, name, meta):
     # what the property fixes: whether a Discover is answered, by how many frames, and the 46 fixed bytes of the Hello
     if blk.fault: return ('fault',)
@@ -64,7 +65,7 @@ def oracle(name, ib, mb, meta):
     fails = []; tr = MapperTracker(); own = cfg_own(ib); faulty = False
     for i, b in enumerate(ib):
         if b.op.startswith('failalloc'): faulty = 'clear' not in b.op
-        if not b.op.startswith('frame') or b.fault: continue
+        if not b.op.startswith('frame 0 ') or b.fault: continue
         if faulty:
             ctx, fr = frame_of(b); tr.feed(dec(fr + bytes(max(0, 36 - len(fr))))); continue
         ctx, fr = frame_of(b); d = dec(fr + bytes(max(0, 36 - len(fr))))
@@ -88,7 +89,7 @@ def oracle(name, ib, mb, meta):
 def count(name, lines, ib, stats, meta):
     tr = MapperTracker(); hist = 'start'
     for b in ib:
-        if not b.op.startswith('frame'): continue
+        if not b.op.startswith('frame 0 '): continue
         ctx, fr = frame_of(b); d = dec(fr + bytes(max(0, 36 - len(fr))))
         if d['tos'] in (0, 1) and d['opc'] == 0:
             stats['evaluations'] += 1
